@@ -56,6 +56,7 @@ class World:
         self.funcs: dict[str, FuncInfo] = {}
         self.setters: dict[str, FuncInfo] = {}
         self.class_nodes = {}
+        self.instance_fields = {}
         self.module_files = {}
         self._parse_sources()
         self.class_ids = {}
@@ -111,6 +112,17 @@ class World:
             elif isinstance(node, ast.ClassDef):
                 q = f"{prefix}.{node.name}"
                 self.class_nodes[q] = (node, mn)
+                flds = self.instance_fields.setdefault(q, set())
+                for sub in ast.walk(node):
+                    tgts = []
+                    if isinstance(sub, ast.Assign):
+                        tgts = sub.targets
+                    elif isinstance(sub, (ast.AnnAssign, ast.AugAssign)):
+                        tgts = [sub.target]
+                    for t_ in tgts:
+                        for x in ast.walk(t_):
+                            if isinstance(x, ast.Attribute) and isinstance(x.value, ast.Name) and x.value.id == "self":
+                                flds.add(x.attr)
                 self._collect(mn, node, text, path, prefix=q, cls=q)
             elif isinstance(node, ast.If):
                 # e.g. `if not hasattr(...): def _tunnel` / try-import fallbacks: collect both arms
